@@ -562,8 +562,11 @@ func c02gen(c *h.Ctx, yield func(*h.Case)) {
 			for ty := 1; ty <= 4; ty++ {
 				for _, s := range senders(root, k) {
 					for _, p := range peers(root, k) {
-						if p == "-" || r.Intn(c.Pick(4, 1)) != 0 {
-							// without a peer identity (local injection) there is nobody to ask for the tree
+						if p == "-" || strings.Contains(p, "a") || r.Intn(c.Pick(4, 1)) != 0 {
+							// without a peer identity (local injection) there is nobody to ask for the tree; an identity
+							// with another server's address would make the receiver dial that server for the tree and keep
+							// the connection under the wrong name for the rest of the run (plain transports trust the
+							// declared identity — outside this property, see the assumptions)
 							continue
 						}
 						cs := &h.Case{Class: fmt.Sprintf("parked ty=%d", ty)}
